@@ -31,6 +31,8 @@ var fuzzSeeds = []string{
 	"8=FIX.4.2\x019=5\x0135=0\x0134=\x0110=000\x01", "8=FIX.4.2\x019=10\x0135=n\x01212=99999\x01213=x\x0110=000\x01", "8=FIX.4.2\x01", "8=FIX.4.2\x019=5\x01",
 	// a tag written with a leading zero (the engine reads 08 as 8): once a false alarm of the BodyLength oracle
 	"08=\x019=8\x0135=0000\x0110=\x01",
+	// bytes after the CheckSum are not part of the message (once a false alarm of the retrieval oracle)
+	"8=\x019=5\x0135=0\x0110=\x011=\x01", "8=\x019=5\x0135=0\x0110=\x0110=\x01", "8=\x019=0\x0135=0\x019=5\x0110=\x01", "8=\x019=04\x0135=\x0110=\x01",
 	// constants at the boundaries of integer parsing and offset arithmetic, and over-long timestamps
 	"8=FIX.4.2\x019=9223372036854775807\x0135=0\x0110=000\x01", "8=FIX.4.2\x019=9223372036854775795\x0135=0\x0110=000\x01", "8=FIX.4.2\x019=2147483647\x0135=0\x0110=000\x01",
 	"8=FIX.4.2\x019=40\x0135=n\x01212=9223372036854775807\x01213=<a/>\x0110=000\x01", "8=FIX.4.2\x019=40\x0135=n\x01212=9223372036854775800\x01213=<a/>\x0110=000\x01",
@@ -115,18 +117,24 @@ func FuzzC11_Parse(f *testing.F) {
 		if serr != nil {
 			return // the independent scanner does not accept it: nothing to compare
 		}
+		count := map[int]int{}
+		for _, x := range fs {
+			count[x.Tag]++
+		}
 		// a message that parsed must start 8,9,35 and have a BodyLength that matches
 		if len(fs) < 4 || fs[0].Tag != 8 || fs[1].Tag != 9 || fs[2].Tag != 35 {
 			t.Fatalf("VIOLATION-SIG C11/corrupt/accepted/leading-order :: accepted %q", data)
 		}
-		if fr, aerr := fixwire.Analyze(data, map[int]int{212: 213}); aerr == nil && fs[len(fs)-1].Tag == 10 && !strings.Contains(string(data), "\x01212=") {
-			if fr.DeclaredLength != itoa(fr.ActualLength) && isDigits(fr.DeclaredLength) {
+		if fr, aerr := fixwire.Analyze(data, map[int]int{212: 213}); aerr == nil && fs[len(fs)-1].Tag == 10 && count[8] == 1 && count[9] == 1 && count[10] == 1 && !strings.Contains(string(data), "\x01212=") {
+			// compared as numbers: "04" announces four bytes
+			if n, nerr := strconv.Atoi(fr.DeclaredLength); nerr == nil && isDigits(fr.DeclaredLength) && n != fr.ActualLength {
 				t.Fatalf("VIOLATION-SIG C11/corrupt/accepted/bodylength :: declared %s actual %d in %q", fr.DeclaredLength, fr.ActualLength, data)
 			}
 		}
-		count := map[int]int{}
-		for _, x := range fs {
-			count[x.Tag]++
+		if fs[len(fs)-1].Tag != 10 || count[10] != 1 {
+			// the statement speaks about messages that end with CheckSum; the engine stops reading
+			// at the first CheckSum field, what follows is not part of the message
+			return
 		}
 		for _, x := range fs {
 			if count[x.Tag] != 1 {
